@@ -572,6 +572,13 @@ func (cs *CaseStatement) Idx0() file.Idx {
 
 // Idx1 implements Node.
 func (cs *CaseStatement) Idx1() file.Idx {
+	if len(cs.Consequent) == 0 {
+		// An empty clause ends after its colon.
+		if cs.Test != nil {
+			return cs.Test.Idx1() + 1
+		}
+		return cs.Case + file.Idx(len("default:"))
+	}
 	return cs.Consequent[len(cs.Consequent)-1].Idx1()
 }
 
@@ -955,10 +962,24 @@ type Program struct {
 
 // Idx0 implements Node.
 func (p *Program) Idx0() file.Idx {
+	if len(p.Body) == 0 {
+		return p.base()
+	}
 	return p.Body[0].Idx0()
+}
+
+// base is the position of an empty program: the base of its file.
+func (p *Program) base() file.Idx {
+	if p.File != nil {
+		return file.Idx(p.File.Base())
+	}
+	return 0
 }
 
 // Idx1 implements Node.
 func (p *Program) Idx1() file.Idx {
+	if len(p.Body) == 0 {
+		return p.base()
+	}
 	return p.Body[len(p.Body)-1].Idx1()
 }
